@@ -3,6 +3,7 @@ from .. import common as C, structs as S, clientgen as G
 from .c07 import run_histories, classify_status
 
 LEAN_MODULES = ["ZvtVerif.Properties.C18"]
+TRANSLATED = {"structs", "sequences", "errors"}      # translated tables this property consumes (a translator problem elsewhere does not break its tie)
 ASSUMPTIONS = ["fault-free transport", "python oracle classify_status is the specification of the classification"]
 
 
